@@ -24,3 +24,25 @@ func RecorderRuntime() []byte {
 
 // RecorderAddr: the first contract user/0 creates (C03 worlds deploy it during set-up).
 func RecorderAddr(w *World) common.Address { return ethcrypto.CreateAddress(w.Key("user", 0).Hex(), 0) }
+
+// ForwarderRuntime: a contract that re-enters the bridge from inside a bridge call - ONCE per arming.
+// With call data and a non-zero balance it first gives its whole balance away (the one-shot flag: native
+// balances are what a nested keeper-level EVM run can see), then forwards the call data unchanged to the
+// cross-chain precompile, ignores the outcome and succeeds. Without call data it just accepts value
+// (arming). Unarmed it does nothing.
+func ForwarderRuntime() []byte {
+	const opSELFBALANCE = 0x47
+	a := NewAsm()
+	a.Op(opCALLDATASIZE, opISZERO).JumpI("end")
+	a.Op(opSELFBALANCE, opISZERO).JumpI("end")
+	// call(gas, 0xdead, selfbalance, 0, 0, 0, 0)
+	a.Push(0).Push(0).Push(0).Push(0).Op(opSELFBALANCE)
+	a.PushAddr(common.HexToAddress("0x000000000000000000000000000000000000dEaD")).Op(opGAS).Op(opCALL, opPOP)
+	a.Op(opCALLDATASIZE).Push(0).Push(0).Op(opCALLDATACOPY)
+	// call(gas, 0x1004, 0, 0, calldatasize, 0, 0)
+	a.Push(0).Push(0).Op(opCALLDATASIZE).Push(0).Push(0)
+	a.PushAddr(common.HexToAddress("0x0000000000000000000000000000000000001004")).Op(opGAS).Op(opCALL, opPOP)
+	a.Label("end")
+	a.Op(opSTOP)
+	return a.Bytes()
+}
